@@ -63,9 +63,12 @@ package engine
 //@   let oBad      = uf_b_invalidHeaderChar(origin)
 //@   let known     = uf_b_mapHas(bs.clients, sid, bs.clients.$mapver)
 //@   let hasSid    = len(sid) > 0
+//@   let prevName  = Socket(uf_i_mapVal(bs.clients, sid, bs.clients.$mapver)).Transport().Name()
 //@   ensures [C05.v.transport] tBad ==> result0 == UNKNOWN_TRANSPORT
 //@   ensures [C05.v.origin]    !tBad && oBad ==> result0 == BAD_REQUEST
 //@   ensures [C05.v.sid,C04.unknown] !tBad && !oBad && hasSid && !known ==> result0 == UNKNOWN_SID
+//@   ensures [C05.v.mismatch]  !tBad && !oBad && hasSid && known && !upgrade && prevName != transport ==> result0 == BAD_REQUEST
+//@   ensures [C05.v.bound]     !tBad && !oBad && hasSid && known && (upgrade || prevName == transport) ==> result0 == nil
 //@   ensures [C05.v.method]    !tBad && !oBad && !hasSid && method != "GET" ==> result0 == BAD_HANDSHAKE_METHOD
 //@   ensures [C05.v.wsplain]   !tBad && !oBad && !hasSid && method == "GET" && transport == "websocket" && !upgrade ==> result0 == BAD_REQUEST
 //@   ensures [C05.v.hook]      !tBad && !oBad && !hasSid && method == "GET" && !(transport == "websocket" && !upgrade) && bs.opts.AllowRequest() != nil ==> calls(allowRequest) == 1 && (ret(allowRequest, 1) != nil <==> result0 == FORBIDDEN) && (ret(allowRequest, 1) == nil ==> result0 == nil)
